@@ -146,6 +146,20 @@ def check_linear(sc, seed):
     return None
 
 
+def check_composition(sc, atm):
+    """Tb with a non-scattering isotropic atmosphere (tb_down, tb_up, transmittance) = tb_up + transmittance x (Tb of the same scene under
+    a loss-free sky radiating tb_down), including the end points transmittance = 1 and 0"""
+    d1 = json.loads(json.dumps(sc)); d1["atmosphere"] = dict(tb_down=atm[0], tb_up=atm[1], trans=atm[2])
+    d0 = json.loads(json.dumps(sc)); d0["atmosphere"] = dict(tb_down=atm[0], tb_up=0.0, trans=1.0)
+    d1["assembly"] = d0["assembly"] = 0
+    th = [20., 40., 55.]
+    tb1, tb0 = run_tb(d1, th), run_tb(d0, th)
+    dev = float(np.abs(np.asarray(tb1) - (atm[1] + atm[2] * np.asarray(tb0))).max())
+    if not dev <= 1e-7:
+        return ("atmosphere-composition", dev, f"<= 1e-7 K with (tb_down, tb_up, transmittance) = {atm}")
+    return None
+
+
 def check_angles(sc):
     """the value at a viewing angle does not depend on its companions or their order: a 4-angle radiometer in a non-monotonic order
     against one run per angle (same sources)"""
@@ -193,6 +207,17 @@ def oracle(ctx, hints, effort):
         if r:
             findings.setdefault(r[0], Finding(r[0], "an angle-dependent atmosphere object (nodes given in another order, reused over a series of snowpacks) gives a different Tb than a fresh one with sorted nodes",
                                               {"kind": "atm-reuse", "seed": sd}, r[1], r[2]))
+    for atm in [(20.0, 6.0, 1.0), (30.0, 250.0, 0.0), (round(float(rng.uniform(0, 80)), 2), round(float(rng.uniform(0, 60)), 2), round(float(rng.uniform(0.5, 1)), 3))]:
+        sc = const_scene(rng, "iba", "exponential", atmosphere=False)
+        sc["nmax"] = 16
+        try:
+            evals += 2
+            r = check_composition(sc, atm)
+        except AssertionError:
+            continue
+        if r is not None:
+            findings.setdefault(r[0], Finding(r[0], f"Tb under the atmosphere {atm} is not tb_up + transmittance x (Tb under a loss-free sky at tb_down)",
+                                              {"kind": "composition", "scene": sc, "atm": list(atm)}, r[1], r[2]))
     n = 4 if effort == "routine" else 40
     for i in range(n):
         em, ms = pC01.PAIRINGS[i % (3 if effort == "routine" else len(pC01.PAIRINGS))]
@@ -222,6 +247,9 @@ def oracle(ctx, hints, effort):
 
 
 def replay(inp, rp=None):
+    if inp.get("kind") == "composition":
+        r = check_composition(inp["scene"], tuple(inp["atm"]))
+        return Finding("?", r[0], inp, r[1], r[2]) if r else None
     if inp.get("kind") == "atm-reuse":
         r = check_atm_reuse(inp["seed"])
         return Finding("?", r[0], inp, r[1], r[2]) if r else None
